@@ -174,6 +174,52 @@ async def scenario(root, case):
     return problems
 
 
+def transparency(seed, n_sequences):
+    """the limiter never alters the bytes, and seek / truncate / tell through it act on the underlying stream: random sequences of
+    read / write / seek / tell / truncate (explicit sizes incl. 0, and no size) on a wrapped BytesIO against a plain BytesIO"""
+    problems = []
+    clock = Clock()
+    real_time = utils.time
+    utils.time = FakeModule(real_time, perf_counter=clock.perf_counter, sleep=clock.sleep)
+    try:
+        for q in range(n_sequences):
+            rnd = random.Random(seed * 7919 + q)
+            initial = rnd.randbytes(rnd.choice([0, 10, 100]))
+            plain, inner = io.BytesIO(initial), io.BytesIO(initial)
+            limited = utils.RateLimitedIO(rnd.choice([1000, 10 ** 6])).wrap(inner)
+            trace = []
+            for step in range(12):
+                op = rnd.choice(['read', 'write', 'seek', 'tell', 'truncate', 'truncate_here'])
+                if op == 'read':
+                    n = rnd.choice([1, 3, 50, 250])
+                    a, b = plain.read(n), limited.read(n)
+                elif op == 'write':
+                    data = rnd.randbytes(rnd.choice([1, 2, 40]))
+                    a, b = plain.write(data), limited.write(data)
+                elif op == 'seek':
+                    pos = rnd.choice([0, 1, 5, 60])
+                    a, b = plain.seek(pos), limited.seek(pos)
+                elif op == 'tell':
+                    a, b = plain.tell(), limited.tell()
+                elif op == 'truncate':
+                    size = rnd.choice([0, 0, 1, 7, 80])
+                    a, b = plain.truncate(size), limited.truncate(size)
+                    op = f'truncate({size})'
+                else:
+                    a, b = plain.truncate(), limited.truncate()
+                trace.append(op)
+                if a != b or plain.getvalue() != inner.getvalue() or plain.tell() != inner.tell():
+                    problems.append({'problem': 'the wrapped stream behaves differently from the plain one', 'sequence': q, 'operations': trace[-6:],
+                                     'returned': [repr(a)[:40], repr(b)[:40]], 'contents_equal': plain.getvalue() == inner.getvalue(),
+                                     'positions': [plain.tell(), inner.tell()]})
+                    break
+            if len(problems) >= 3:
+                break
+    finally:
+        utils.time = real_time
+    return problems
+
+
 def main():
     payload = lib.read_payload()
     tier, seed = payload.get('tier', 'quick'), int(payload.get('seed', 0))
@@ -214,6 +260,12 @@ def main():
         if probs:
             failures.append({'id': f'e2e{i}', 'class': None, 'case': case, 'detail': probs[:4]})
         samples.append(case)
+    n_seq = 0
+    if not only:
+        n_seq = 3000 if tier == 'thorough' else 400
+        for prob in transparency(seed, n_seq):
+            failures.append({'id': f'transparent{prob["sequence"]}', 'class': None, 'case': {'kind': 'positioning through the wrapper', 'sequence': prob['sequence']}, 'detail': prob})
+    n_units += n_seq
     lib.emit({'status': 'ok', 'cases': len(cases) * 4 + n_units, 'distinct': len(cases) * 4 + n_units, 'failures': failures[:10], 'samples': samples[:3],
               'exhaustive': False, 'reproduced': bool(failures),
               'note': 'virtual clock: exact for concurrency 1, an over-estimate of elapsed time (weaker check) for concurrency > 1'})
